@@ -360,7 +360,7 @@ class Orbital(object):
         times = utc_time + np.array([dt.timedelta(minutes=minutes)
                                      for minutes in range(length * 60)])
         elev = self.get_observer_look(times, lon, lat, alt)[1] - horizon
-        zcs = np.where(np.diff(np.sign(elev)))[0]
+        zcs = np.where(np.diff(np.signbit(elev)))[0]
         res = []
         risetime = None
         risemins = None
